@@ -169,7 +169,19 @@ let () =
             let w_look k = (match pm_lookup k w_build.ps_map with Some _ -> "found" | None -> "missed") in
             let agree = a = w_build && dup = w_dup && ct = w_ct && merged = Some w_merged &&
                         List.for_all (fun k -> look k = w_look k) ids in
-            Printf.printf "dup=%s ct=%s agree=%d | %s | %s | %s\n" dup ct (if agree then 1 else 0)
+            (* wave 4: the set after every route of the harness, through the GENERATED copy constructor / operator= *)
+            let routes = String.concat " " (List.filter_map (fun id ->
+                if id = 7 then None else
+                match route_of_id (nat_of_int id) la with
+                | None -> None
+                | Some rt ->
+                  (match route_set gen_container gen_copying rt a with
+                   | None -> Some (Printf.sprintf "rt%d=stuck" id)
+                   | Some q ->
+                     let d = (match run_check gen_container q with CThrown SwMultiple -> "1" | CNormal _ -> "0" | _ -> "s") in
+                     Some (Printf.sprintf "rt%d=%s%s" id d (if q.ps_map = a.ps_map then "1" else "0"))))
+              [1; 2; 3; 4; 5; 6; 8; 9; 10]) in
+            Printf.printf "dup=%s ct=%s agree=%d %s | %s | %s | %s\n" dup ct (if agree then 1 else 0) routes
               (map_text a.ps_map) (match merged with Some g -> map_text g | None -> "STUCK")
               (String.concat ";" (List.map (fun k -> string_of_int (int_of_nat k) ^ "=" ^ look k) ids))
         with _ -> print_string "BAD-REQUEST\n")
@@ -190,7 +202,9 @@ let () =
       if Array.length w > 0 && w.(0) = "R" then begin
         try
           let n = int_of_string w.(1) and d = int_of_string w.(2) and mask = int_of_string w.(3) in
-          let old = int_of_string w.(4) = 1 and nkw = int_of_string w.(5) in
+          (* field 4: bit0 the stage order of the tree before repair F27; the rest (wave 4): the route number *)
+          let old = (int_of_string w.(4)) land 1 = 1 and route = (int_of_string w.(4)) lsr 1
+          and nkw = int_of_string w.(5) in
           let i = ref 6 in
           let kws = ref [] in
           for _ = 1 to nkw do
@@ -205,8 +219,14 @@ let () =
                     rq_kernel = (mask land 1 <> 0); rq_distance = (mask land 2 <> 0);
                     rq_features = (mask land 4 <> 0) } in
           let tables = if old then old_of gen_tables else gen_tables in
-          let (tr, res) = exec tables r in
-          let outcome = match res with RThrow e -> "throw:" ^ exc_name e | RDone _ -> "done" in
+          let via = (if route = 0 then Some (exec tables r) else
+                     match route_of_id (nat_of_int route) r.rq_kws with
+                     | Some rt -> exec_via gen_container gen_copying rt tables r
+                     | None -> None) in
+          let (tr, outcome) = (match via with
+            | Some (tr, RThrow e) -> (tr, "throw:" ^ exc_name e)
+            | Some (tr, RDone _) -> (tr, "done")
+            | None -> ([], "stuck")) in
           let spec = match spec_outcome r with None -> "none" | Some e -> exc_name e in
           let merged = pm_merge r.rq_kws (t_defaults doc_tables) in
           let mtxt = String.concat ";" (List.map (fun (k, v) -> string_of_int (int_of_nat k) ^ "=" ^ value_text v) merged) in
